@@ -93,6 +93,14 @@ def catalog():
         "setup": [stack(man, 0.5, {"f0.fn": {"after": 2}}, calls=[{}, {"vsleep": 0.25}, {}], cancel=[["ret", True]]), sub("f0"), ["sleep", 0.01], ["run", "ex", 0]],
         "threads": [[["sleep", 0.74], ["cancel", "f0"]]],
         "settle": 1.5, "final": [["state", "f0"]]}}
+    # cancel() of a polled future (vetoing cancel function) while an EARLIER-registered future is being resolved and
+    # de-registered: the cancel path searches the descriptor list without the executor lock.  Swept with backward jumps as
+    # scheduling points too (the search is a one-line comprehension) under the timers-may-pre-empt clock.
+    out["P9/cancel-searches-while-another-future-deregisters"] = {"clock": "preempt", "jump_points": True, "prog": {
+        "setup": [stack(man, 1.0, {"f0.fn": {"after": 2}, "f1.fn": {"after": None}, "f2.fn": {"after": None}}, cancel=[["ret", False]]),
+                  sub("f0"), sub("f1"), sub("f2"), ["sleep", 0.01], ["run", "ex", 0], ["run", "ex", 1], ["run", "ex", 2]],
+        "threads": [[["sleep", 0.99], ["cancel", "f1"], ["cancel", "f2"]]],
+        "settle": 2.5, "final": [["state", "f0"], ["state", "f1"], ["state", "f2"]]}}
     return out
 
 
@@ -317,6 +325,24 @@ def evaluate(case):
                 veto = r[1] == "raise" or not r[2].get("value")
                 if veto and o["result"][1] is not False:
                     bad("cancel-fn-veto-ignored", fut=F["name"], cancel_fn=r[2], cancel_result=o["result"])
+    # ... and it IS consulted: a cancel() that returned True for a future which was in the polling stage before the call began
+    # (delegate finished successfully, registration complete, no yield and no earlier successful cancel) cannot have skipped it
+    if has_cfn:
+        cf_calls = [(e[0], e[4]) for e in s.events if e[3] == "call" and e[4]["fn"] == CFN]
+        for F in futs.values():
+            first_true = None
+            for o in sorted(F["cancels"], key=lambda o: o["call_seq"]):
+                if o["result"][0] != "ok" or o["result"][1] is not True:
+                    continue
+                if first_true is not None:
+                    continue
+                first_true = o
+                if F["ok"] is not True or F["comp_end"] is None or F["comp_end"] > o["call_seq"]:
+                    continue  # not (certainly) in the polling stage when the call began
+                if any(y["seq"] < o["ret_seq"] for y in F["yields"]) or (F["resolved_by_raise"] is not None and F["resolved_by_raise"] < o["ret_seq"]):
+                    continue  # being resolved at about the same time: the descriptor may legitimately be gone
+                if not any(o["call_seq"] < seq < o["ret_seq"] and (d["args"] or [None])[0] == F["result"] for seq, d in cf_calls):
+                    bad("cancel-true-without-consulting-the-cancel-function", fut=F["name"])
     info["nt"] = nt
     info["polls"] = len(calls)
     return viols, info
@@ -401,6 +427,8 @@ def run_shard(spec, ctx):
             extra = {"entry": name, "max_vtime": 300}
             if ent.get("clock"):
                 extra["clock"] = ent["clock"]
+            if ent.get("jump_points"):
+                extra["jump_points"] = True
             da = ent.get("double_always")
             if da:
                 progs.sweep(ctx, ent["prog"], name, evaluate, account, double=True, picks=da["picks"], window=da["window"], extra=extra)
